@@ -26,7 +26,7 @@ CONSTANT StdQuirks   \* TRUE only while the standard library's own traces are va
 
 VARIABLES
   mode,        \* "none" | "open" | "closed" | "failed"
-  kind,        \* "flate" | "gzip" | "zlib"
+  kind,        \* "flate" | "gzip" | "zlib" | BadHdr (a gzip Writer whose header fields cannot be encoded)
   level,       \* compression level given to the constructor
   window,      \* 4096 | 32768
   accel,       \* setting handled by fastgo's own compressors (levels -2,-1,1,2, no dictionary)
@@ -44,6 +44,11 @@ cvars == <<mode, kind, level, window, accel, period, acc, dec, tail, flushes,
            emitted, downSeen, closeFailed, cerr>>
 
 Chk(name, cond) == IF cond THEN {} ELSE {name}
+
+\* A gzip Writer whose Header cannot be written (Extra longer than 65535 bytes, a NUL or a
+\* code point above U+00FF in Name or Comment): compress/gzip reports that from the first call
+\* that has to emit the header, and from every call after it.  Reset restores the default header.
+BadHdr == "gzip-unencodable-header"
 
 CInit ==
   /\ mode = "none" /\ kind = "flate" /\ level = 0 /\ window = 32768 /\ accel = FALSE
@@ -64,13 +69,15 @@ Begin(e) ==
 Reset(e) ==
   /\ mode # "none"
   /\ Fresh
-  /\ UNCHANGED <<kind, level, window, accel, period>>
+  /\ kind' = IF kind = BadHdr THEN "gzip" ELSE kind
+  /\ UNCHANGED <<level, window, accel, period>>
 
 -----------------------------------------------------------------------------
 (* Which situation a call is made in. *)
 Failing(e)    == e.down /\ ~downSeen            \* the destination fails during this call
 Phase(e) ==
-  IF Failing(e)          THEN "failing"
+  IF kind = BadHdr       THEN "badHeader"
+  ELSE IF Failing(e)     THEN "failing"
   ELSE IF mode = "failed" THEN "afterFail"
   ELSE IF mode = "closed" THEN "afterClose"
   ELSE "open"
@@ -149,6 +156,8 @@ Failed(e) ==
              \/ e.err # "nil"
              \/ (StdQuirks /\ closeFailed /\ kind = "flate" /\ e.ev = "Write"))
   \cup Chk("C14.untouched",     ph = "afterFail" => e.calls = 0 /\ e.bytes = 0 /\ e.after = 0)
+  \* ---- a header that cannot be encoded: every call says so, as compress/gzip does ----
+  \cup Chk("C16.header_error", ph = "badHeader" => (e.err # "nil" /\ (e.ev = "Write" => e.ret = 0)))
   \* ---- after a successful Close ----------------------------------------------
   \cup Chk("C16.closed_parity", ph = "afterClose" => (e.err # "nil") = ExpectErrClosed(e))
   \cup Chk("C16.closed_count",  (ph = "afterClose" /\ e.ev = "Write") => e.ret = 0)
@@ -162,7 +171,8 @@ Failed(e) ==
 Call(e) ==
   LET ph == Phase(e) IN
   /\ mode \in {"open", "closed", "failed"}
-  /\ mode' = CASE ph = "failing" -> "failed"
+  /\ mode' = CASE ph = "badHeader" -> mode
+               [] ph = "failing" -> "failed"
                [] ph = "open" /\ e.ev = "Close" /\ e.err = "nil" -> "closed"
                [] OTHER -> mode
   /\ acc' = IF e.ev = "Write" /\ ph = "open" THEN acc + e.n
@@ -182,7 +192,19 @@ Call(e) ==
 (* Flush positions; C12: a Writer after Reset against a fresh Writer).      *)
 CmpFailed(e) ==
      Chk("C09.same_bytes", e.what = "C09" => e.equal)
-  \cup Chk("C12.same_bytes", e.what = "C12" => e.equal)
+  \cup Chk("C12.same_bytes", e.what \in {"C12", "soak"} => e.equal)
+  \* after any number of streams that died with their destination, Reset gives a Writer as good as new
+  \cup Chk("C14.reusable_after_failures", e.what = "soak" => e.equal)
+
+(* A pooled Writer's life before the history proper: e.n streams, each ended by a   *)
+(* failing destination and followed by Reset.  e.ret counts the streams whose       *)
+(* failure was not reported or after which the destination was called again.        *)
+Soak(e) == Reset(e)
+SoakFailed(e) ==
+     Chk("C14.nopanic_on_failure", e.panic = "")
+  \cup Chk("C16.nopanic", e.panic = "")
+  \cup Chk("C12.reset_nopanic", e.panic = "")
+  \cup Chk("C14.reported", e.ret = 0)
 
 (* Constructors that mirror the standard library accept and reject the same *)
 (* levels.                                                                  *)
